@@ -257,6 +257,74 @@ def run(ctx, repo):
                             'all callers (%s): a second thread overwrites them between two steps of the first thread\'s lookup, which '
                             'then returns the factor of another event or age' % (q, ', self.'.join(sorted(set(dep_attrs))), G.path_to(seen, node)),
                             'two threads calling wma_age_factor with different events')
+    # ---- I4 check-then-act on a shared container that can lose entries: `k in D` ... `D[k]` are two steps
+    removers = {}       # container -> function that removes entries (directly or through an aliasing parameter)
+    for (key, rcls, rkind) in seen:
+        rel, q = key
+        fn = G.func_node(key)
+        for n in ast.walk(fn):
+            if isinstance(n, ast.Call) and isinstance(n.func, ast.Attribute) and n.func.attr in ('pop', 'popitem', 'clear') and isinstance(n.func.value, ast.Name):
+                removers.setdefault((rel, n.func.value.id), q)
+            if isinstance(n, ast.Delete):
+                for t in n.targets:
+                    if isinstance(t, ast.Subscript) and isinstance(t.value, ast.Name):
+                        removers.setdefault((rel, t.value.id), q)
+    # a parameter that aliases module-level containers at its call sites
+    evictable = set()
+    for (key, rcls, rkind) in seen:
+        rel, q = key
+        fn = G.func_node(key)
+        for c in ast.walk(fn):
+            if isinstance(c, ast.Call) and isinstance(c.func, ast.Name):
+                r = G.resolve_name(rel, c.func.id)
+                if r and r in {k for k, _, _ in seen}:
+                    callee = G.func_node(r)
+                    for i, a in enumerate(c.args):
+                        if isinstance(a, ast.Name) and a.id in shared.get(rel, {}) and i < len(callee.args.args):
+                            if (r[0], callee.args.args[i].arg) in removers:
+                                evictable.add((rel, a.id))
+    for (rel, name), q in removers.items():
+        if name in shared.get(rel, {}):
+            evictable.add((rel, name))
+    for (key, rcls, rkind) in sorted(seen, key=lambda x: (x[0], str(x[1]), str(x[2]))):
+        rel, q = key
+        fn = G.func_node(key)
+        for n in ast.walk(fn):
+            if isinstance(n, ast.If) and isinstance(n.test, ast.Compare) and len(n.test.ops) == 1 and isinstance(n.test.ops[0], ast.In) \
+                    and isinstance(n.test.comparators[0], ast.Name) and (rel, n.test.comparators[0].id) in evictable:
+                cont = n.test.comparators[0].id
+                ktxt = ast.unparse(n.test.left)
+                reads = [x for st in n.body for x in ast.walk(st) if isinstance(x, ast.Subscript) and isinstance(x.ctx, ast.Load)
+                         and isinstance(x.value, ast.Name) and x.value.id == cont and ast.unparse(x.slice) == ktxt]
+                if reads:
+                    n_sites += 1
+                    ctx.finding('I3', '%s::%s::membership test then subscript on evictable %s' % (rel, q, cont), rel, n.lineno,
+                                '%s tests `%s in %s` and then reads `%s[%s]` in a second step, while %s evicts entries from that container: '
+                                'another thread inserting at the size limit removes the key in between and the reader raises KeyError; a '
+                                'single `.get()` is one atomic step' % (q, ktxt, cont, cont, ktxt, removers.get((rel, cont)) or 'the cache helper'),
+                                'cache full, thread A looks up the newest key, thread B inserts')
+    # ---- I5 lazy initialisation guarded by a non-blocking acquire: the loser neither builds nor waits
+    for (key, rcls, rkind) in sorted(seen, key=lambda x: (x[0], str(x[1]), str(x[2]))):
+        rel, q = key
+        fn = G.func_node(key)
+        gd = set()
+        for n in ast.walk(fn):
+            if isinstance(n, ast.Global):
+                gd.update(n.names)
+        for n in ast.walk(fn):
+            if isinstance(n, ast.If):
+                for c in ast.walk(n.test):
+                    if isinstance(c, ast.Call) and isinstance(c.func, ast.Attribute) and c.func.attr == 'acquire' and (
+                            any(isinstance(a, ast.Constant) and a.value in (False, 0) for a in c.args)
+                            or any(k.arg in ('blocking', 'timeout') for k in c.keywords)):
+                        binds = [x for st in n.body for x in ast.walk(st) if isinstance(x, ast.Assign)
+                                 and any(isinstance(t, ast.Name) and t.id in gd for t in x.targets)]
+                        if binds:
+                            n_sites += 1
+                            ctx.finding('I1', '%s::%s::lazy initialisation behind a non-blocking acquire' % (rel, q), rel, n.lineno,
+                                        '%s builds the shared global only if it wins a non-blocking %s; a second first-caller neither builds nor '
+                                        'waits and carries on with the global still unset (AttributeError / missing score instead of its answer)'
+                                        % (q, unparse(c)), 'two first calls overlapping while the table is being built')
     # class attributes that are mutable placeholders are fine if only rebound (I2); report as inventory
     ctx.count('write sites classified', n_sites)
     ctx.floor('write sites classified', n_sites, 6)
